@@ -95,6 +95,9 @@ package manager
 //@   requires Callbacks(m) && ta != nil && ctx != nil && !inSession[ta.name] && subscribeClient != nil
 //@   modifies ghost inSession, ghost connectsN, ghost resetsN, ghost sendTimerArmed, ghost armedTimers, ghost streamRecvs, ghost updatesN, ghost syncsN, ghost lastUpdateMsg
 //@   ensures [session-closed-on-return C13] !inSession[ta.name]
+//@   ensures [the-stream-is-handled-on-the-monitoring-goroutine-itself C13] spawns() - old(spawns()) <= 1 && hits("call (*Manager).handleUpdates#0") <= old(hits("call (*Manager).handleUpdates#0")) + 1
+//@   assert at call (*Manager).handleUpdates#0: [handles-the-stream-it-opened-with-the-customized-request-sent C13 C01] arg1 == ctx && arg2 == ta && arg3 == sc && sc != nil
+//@   assert at call BidiStreamingClient.Send#0: [sends-the-request-customized-for-this-target C01] arg0 == cr
 //@   ensures [other-targets-untouched C13] forall k string :: k != ta.name ==> inSession[k] == old(inSession[k])
 
 //@ func global subscribeClient (ctx, conn)
